@@ -522,6 +522,12 @@ def test_number():
     # empty list, no punctuation: nothing
     check('number-empty', T('i', '[<xsl:number count="zz"/>]'), '<i/>', '[]')
     check_error('number-bad-level', XSLTStaticError, T('/', '<xsl:number level="all"/>'))
+    # from (hand-derived; libxslt reads `from` differently, so this is oracle-only ground)
+    fdoc = '<r><s><h/><p/><p/></s><s><p/><h/><p><p/></p></s></r>'
+    check('number-any-from-2', T('p', '<xsl:number level="any" count="p" from="h"/>,<xsl:apply-templates/>'), fdoc, '1,2,3,1,2,')
+    check('number-single-from-2', T('p/p', '<xsl:number count="p" from="s"/>|<xsl:number level="multiple" count="p" from="s"/>|<xsl:number level="multiple" count="s|p" from="r"/>'),
+          '<r><s/><s><p/><h/><p><p/></p></s></r>', '1|2.1|2.2.1')
+    check('number-multiple-from-cuts', T('i', '<xsl:number level="multiple" count="*" from="g"/>'), '<a><g/><g><x/><x><i/></x></g></a>', '2.1')
 
 
 def test_keys():
